@@ -27,7 +27,7 @@ def scenarios(tier, seed):
     n = 4 if tier == "quick" else 12
     return [{"kind": "combine", "seed": seed * 1000 + 1500 + i, "layout1": LAYOUTS[i % 6][0], "layout2": LAYOUTS[i % 6][1],
              "nfiles1": [2, 3, 1][i % 3], "nfiles2": [2, 1, 3][(i + 1) % 3], "nlevels": [2, 3, 1][i % 3], "nf1": 2 + i % 3, "nf2": 2 + i % 2,
-             "n0": [16, 16, 8], "box_sizes": [8, 16] if i % 4 == 3 else None, "ncombos": 3 if tier == "quick" else 5} for i in range(n)]
+             "n0": [16, 16, 8], "wide_floats": True, "box_sizes": [8, 16] if i % 4 == 3 else None, "ncombos": 3 if tier == "quick" else 5} for i in range(n)]
 
 
 def run_scenario(p, wd):
